@@ -121,6 +121,10 @@ def check_transform(case, ctx: Ctx):
     wrong = [1.0] * (5 - src_dim(name)) if name not in ("radial2", "radial3") else [1.0]
     ctx.refused("transform of a wrong-dimension point", K.transform, wrong)
     ctx.refused("transform of a wrong-dimension array", K.transform, np.ones((2, len(wrong))))
+    # stacks of point arrays (more than two array dimensions) are not points either, whatever their last axis is
+    dsrc = src_dim(name)
+    for shp in ((2, 3, dsrc), (1, 1, dsrc), (dsrc, dsrc, dsrc)):
+        ctx.refused(f"transform of an array of shape {shp}", K.transform, np.ones(shp))
     ctx.label("class_" + name)
 
 
@@ -290,6 +294,10 @@ def check_paths(case, ctx: Ctx):
     wrong = [1.0] * (5 - src_dim(name)) if name not in ("radial2", "radial3") else [1.0]
     ctx.refused("fill with a point of the wrong dimension", empty.copy().fill, wrong)
     ctx.refused("find_bin with a point of the wrong dimension", empty.find_bin, wrong)
+    e7 = empty.copy()
+    keep7 = np.asarray(e7.frequencies).copy()
+    ctx.refused("fill_n with a stack of point arrays (3 array dimensions)", e7.fill_n, np.ones((2, 3, src_dim(name))))
+    require(np.array_equal(np.asarray(e7.frequencies), keep7), "refused_fill_n_changed_contents", "")
     # projections
     if name in PROJECTION_TABLE:
         d = h.ndim
